@@ -210,3 +210,72 @@ pub fn phys_page(m128: bool, bank: u8) -> Option<u8> {
         }
     }
 }
+
+/// One host-side way of asking for `n` frames.
+#[derive(Clone, Copy, Debug)]
+pub enum Slice {
+    /// `FrameCount(n)` in one call
+    Count(usize),
+    /// Max-speed mode; the scripted stopwatch exceeds the limit at the n-th end-of-frame check;
+    /// `style` selects the earlier readings (0 zero, 1 random below the limit, 2 non-monotone)
+    Max(usize, u8),
+    /// FrameCount(1) calls interrupted by a breakpoint at every `nth` instruction, resumed until n frames passed
+    Break(u64, usize),
+}
+
+/// Drives the emulator for exactly the requested number of frames. Returns frames completed.
+pub fn drive(e: &mut Emu, s: Slice, rng: &mut crate::prng::Rng) -> Result<usize, String> {
+    match s {
+        Slice::Count(n) => {
+            set_break_mode(e, BreakMode::Never);
+            e.set_speed(EmulationMode::FrameCount(n));
+            match e.emulate_frames(LONG) {
+                Ok(i) if i.stop_reason == EmulationStopReason::Completed => Ok(n),
+                Ok(_) => Err("FrameCount call did not complete".into()),
+                Err(x) => Err(format!("emulate_frames: {:?}", x)),
+            }
+        }
+        Slice::Max(n, style) => {
+            set_break_mode(e, BreakMode::Never);
+            e.set_speed(EmulationMode::Max);
+            let limit = 1000u64;
+            let mut readings = vec![];
+            for _ in 0..n.saturating_sub(1) {
+                readings.push(match style {
+                    0 => 0,
+                    1 => rng.below(limit),
+                    _ => *rng.pick(&[0u64, 999, 1, 500, 1000]),
+                });
+            }
+            readings.push(limit + 1 + rng.below(1_000_000));
+            set_clock_script(ClockScript::List(readings));
+            match e.emulate_frames(std::time::Duration::from_micros(limit)) {
+                Ok(i) if i.stop_reason == EmulationStopReason::Timeout => Ok(n.max(1)),
+                Ok(_) => Err("Max-mode call did not end by timeout".into()),
+                Err(x) => Err(format!("emulate_frames: {:?}", x)),
+            }
+        }
+        Slice::Break(nth, n) => {
+            set_break_mode(e, if nth == 0 { BreakMode::Always } else { BreakMode::EveryNth(nth) });
+            e.set_speed(EmulationMode::FrameCount(1));
+            let mut done = 0;
+            let mut guard = 0u64;
+            while done < n {
+                guard += 1;
+                if guard > 100_000_000 {
+                    return Err("no progress under breakpoints".into());
+                }
+                match e.emulate_frames(LONG) {
+                    Ok(i) => match i.stop_reason {
+                        EmulationStopReason::Completed => done += 1,
+                        EmulationStopReason::Breakpoint => done += e.verif_passed_frames(),
+                        EmulationStopReason::Timeout => return Err("unexpected timeout".into()),
+                    },
+                    Err(x) => return Err(format!("emulate_frames: {:?}", x)),
+                }
+            }
+            set_break_mode(e, BreakMode::Never);
+            Ok(done)
+        }
+    }
+}
